@@ -1,4 +1,6 @@
 SPECIFICATION Spec
 CONSTANTS
   Shapes = {"leaf", "a1", "a2", "a3r", "d1", "d2r", "n2r"}
+  Slice = 0
+  NSlices = 1
 INVARIANTS NormIdempotent NormNoNullEntries DepthBound EmitCase
